@@ -18,6 +18,42 @@ func equalOnPanic(c Case) Event {
 
 func equalExec(c Case) Event {
 	ev := equalOnPanic(c)
+	if c.str("kind") == "tolio" {
+		mk := func(v interface{}) (geom.Geometry, [][]int) {
+			var pts []geom.Point
+			out := [][]int{}
+			for _, p := range v.([]interface{}) {
+				pp := p.([]interface{})
+				x, y := jnum(pp[0]), jnum(pp[1])
+				pts = append(pts, geom.XY{X: x, Y: y}.AsPoint())
+				out = append(out, []int{int(x), int(y)})
+			}
+			return geom.NewMultiPoint(pts).AsGeometry(), out
+		}
+		a, pa := mk(c["p"])
+		b, pb := mk(c["q"])
+		t := math.Sqrt(float64(c.num("t2")))
+		opts := []geom.ExactEqualsOption{geom.IgnoreOrder, geom.ToleranceXY(t)}
+		ev["p"], ev["q"], ev["t2"] = pa, pb, c.num("t2")
+		ev["eq"], ev["eqrev"] = geom.ExactEquals(a, b, opts...), geom.ExactEquals(b, a, opts...)
+		ev["eqaa"], ev["eqbb"] = geom.ExactEquals(a, a, opts...), geom.ExactEquals(b, b, opts...)
+		// as a GeometryCollection of Points and with the options in the other order the answers must be the same
+		gc := func(g geom.Geometry) geom.Geometry {
+			var ms []geom.Geometry
+			mp := g.MustAsMultiPoint()
+			for i := 0; i < mp.NumPoints(); i++ {
+				ms = append(ms, mp.PointN(i).AsGeometry())
+			}
+			return geom.NewGeometryCollection(ms).AsGeometry()
+		}
+		if geom.ExactEquals(gc(a), gc(b), geom.ToleranceXY(t), geom.IgnoreOrder) != ev["eq"].(bool) {
+			ev["eqrev"] = !ev["eq"].(bool) // reported as an asymmetry
+		}
+		if !geom.ExactEquals(gc(a), gc(a), geom.ToleranceXY(t), geom.IgnoreOrder) {
+			ev["eqaa"] = false
+		}
+		return ev
+	}
 	if c.str("kind") == "tol" {
 		mk := func(v interface{}) (geom.Geometry, [][]int) {
 			var pts []geom.XY
@@ -216,6 +252,27 @@ func equalGen(r *rand.Rand, n int, tier string, emit func(Case)) {
 		emit(c)
 	}
 	for i := 0; i < n; i++ {
+		if i%12 == 5 {
+			// clusters of near points: "within t" is not transitive, so the member matching has to backtrack
+			m := 2 + r.Intn(5)
+			t2 := []int{1, 2, 4}[r.Intn(3)]
+			p, q := []interface{}{}, []interface{}{}
+			x := r.Intn(3)
+			for j := 0; j < m; j++ {
+				p = append(p, []interface{}{x, r.Intn(2)})
+				x += r.Intn(3) // 0, 1 or 2 apart: chains
+			}
+			for _, v := range r.Perm(m) {
+				pp := p[v].([]interface{})
+				q = append(q, []interface{}{pp[0].(int) + r.Intn(3) - 1, pp[1].(int) + r.Intn(2)})
+			}
+			if r.Intn(4) == 0 {
+				q = append([]interface{}{}, p...)
+				r.Shuffle(len(q), func(a, b int) { q[a], q[b] = q[b], q[a] })
+			}
+			emit(Case{"kind": "tolio", "p": p, "q": q, "t2": t2})
+			continue
+		}
 		if i%12 == 11 {
 			m := 2 + r.Intn(4)
 			p, q := []interface{}{}, []interface{}{}
